@@ -3438,18 +3438,38 @@ fn dump(v: &Memfs) -> String {
         let kind = if v.is_symlink(&p) { format!("link->{:?}", v.readlink_abs(&p).ok()) } else if v.is_dir(&p) { "dir".to_string() } else { format!("file{:?}", v.read_all(&p).ok()) };
         out += &format!("{:?} {} {:o} {:?}\\n", p, kind, v.mode(&p).unwrap_or(0), v.owner(&p).ok());
     }
-    out + &format!("cwd={:?}", v.cwd().ok())
+    out + &format!("cwd={:?}\n{}", v.cwd().ok(), v)
 }
 
-// every existing path has an existing real-directory parent that lists it; listings only name existing paths
+// the complete key sets of the entry map and of the content map, from the Display rendering (lists orphans too)
+fn keys(v: &Memfs) -> (Vec<std::path::PathBuf>, Vec<std::path::PathBuf>) {
+    let text = format!("{}", v);
+    let (mut fs, mut files, mut sect) = (vec![], vec![], 0);
+    for l in text.lines() {
+        if l == "[fs]:" { sect = 1; continue; }
+        if l == "[files]:" { sect = 2; continue; }
+        if l.is_empty() { continue; }
+        if sect == 1 { fs.push(std::path::PathBuf::from(l.split(" -> ").next().unwrap())); }
+        if sect == 2 { files.push(std::path::PathBuf::from(l)); }
+    }
+    (fs, files)
+}
+
+// every stored entry has an existing real-directory parent that lists it; listings only name existing paths;
+// exactly the regular non-link files have byte content
 fn well_formed(v: &Memfs) -> Result<(), String> {
-    let all = v.all_paths("/").map_err(|e| e.to_string())?;
+    let (fs, files) = keys(v);
+    let mut all = v.all_paths("/").map_err(|e| e.to_string())?;
+    for k in &fs { if k.parent().is_some() && !all.contains(k) { all.push(k.clone()); } }
     for p in &all {
         let parent = p.parent().ok_or("no parent")?.to_path_buf();
         if !v.is_dir(&parent) || v.is_symlink(&parent) { return Err(format!("parent of {:?} is not a real directory", p)); }
         if !v.paths(&parent).map_err(|e| e.to_string())?.contains(p) { return Err(format!("{:?} is not listed by its parent", p)); }
         if !v.exists(p) { return Err(format!("{:?} is listed but does not exist", p)); }
-        if v.is_file(p) && !v.is_symlink(p) && v.read_all(p).is_err() { return Err(format!("regular file {:?} has no content", p)); }
+        if v.is_file(p) && !v.is_symlink(p) && !files.contains(p) { return Err(format!("regular file {:?} has no content", p)); }
+    }
+    for f in &files {
+        if !fs.contains(f) || !v.is_file(f) || v.is_symlink(f) { return Err(format!("byte content stored for {:?}, which is not a regular file", f)); }
     }
     if !v.cwd().map_err(|e| e.to_string())?.is_absolute() { return Err("cwd is not absolute".into()); }
     Ok(())
@@ -3568,7 +3588,10 @@ def mem_replay_src(f):
     if let Ok(ok) = r.apply(%s, %s, %s) {
         assert_eq!(!failed, ok, "C01: %s succeeds/fails differently from the reference filesystem");
         if ok {
-            assert_eq!(dump(&v), r.dump(), "C01: the tree after %s differs from the reference filesystem's");
+            assert_eq!(dump(&v).split("\n[cwd]").next().unwrap(), r.dump(), "C01: the tree after %s differs from the reference filesystem's");
+            let (fs, files) = keys(&v);
+            assert_eq!(fs.len(), r.nodes.len(), "C01: stored entries differ from the reference filesystem's");
+            assert_eq!(files.len(), r.nodes.values().filter(|n| n.is_some()).count(), "C01: stored file contents differ from the reference filesystem's");
         }
     }
 ''' % (rs_str(cwd), rs_str(op), rs_str(a["arg0"]), rs_str(a.get("data1", "")), op, op)
@@ -3789,15 +3812,15 @@ def c06_thorough(ctx, prop):
 # ------------------------------------------------------------------------------------------------
 # C10: symlinks on Memfs
 # ------------------------------------------------------------------------------------------------
-def run_symlinks(ctx, prop, nmax, tag="c10_symlink", cwds=("/", "/a")):
+def run_symlinks(ctx, prop, nmax, tag="c10_symlink", cwds=("/", "/a"), la_range=None, lb_range=None):
     t0 = time.time()
     run = MemRun(ctx, tag)
     ex, ob, solver = run.ex, run.ob, run.solver
     unit = dict(status="pass", failures=[])
     kinds = {"/": "d", "/a": "d", "/a/b": "f", "/b": "f"}
     for cwd in cwds:
-        for la in range(1, nmax + 1):
-            for lb in range(1, nmax + 1):
+        for la in (range(1, nmax + 1) if la_range is None else range(la_range[0], la_range[1] + 1)):
+            for lb in (range(1, nmax + 1) if lb_range is None else range(lb_range[0], lb_range[1] + 1)):
                 tagx = "%s_%s_%d_%d" % (tag, cwd.replace("/", "r"), la, lb)
                 v1, c1, g1 = mem_args(solver, tagx + "a", ["path2"], la, la)
                 v2, c2, g2 = mem_args(solver, tagx + "b", ["path2"], lb, lb)
@@ -3819,10 +3842,17 @@ def run_symlinks(ctx, prop, nmax, tag="c10_symlink", cwds=("/", "/a")):
                     if not (isinstance(sym, Adt) and sym.variant == 0):
                         return  # symlink refused: nothing to check here (atomicity is C01's)
                     la_ = abs_oracle(ex, st, L, T_(cwd), run.tenv)
-                    ta_ = abs_oracle(ex, st, T, T_(cwd), run.tenv)
-                    if la_[0] != "ok" or ta_[0] != "ok":
+                    if la_[0] != "ok":
                         return
-                    Labs, Tabs = la_[1], ta_[1]
+                    Labs = la_[1]
+                    # a relative target is relative to the link's own directory (as for a real symbolic link), not to the cwd
+                    if ex.decide(st, TP.is_ch(T[0], TP.SLASH)):
+                        ta_ = abs_oracle(ex, st, T, T_(cwd), run.tenv)
+                    else:
+                        ta_ = abs_oracle(ex, st, list(TP.parent_text(ex, st, Labs) or T_("/")) + T_("/") + list(T), T_(cwd), run.tenv)
+                    if ta_[0] != "ok":
+                        return
+                    Tabs = ta_[1]
                     # the statement quantifies over link locations that are free; skip self/occupied links
                     rla, rl = results[1][1], results[2][1]
                     fail = lambda d: (ob.failures.append(dict(kind="functional", where="Memfs", cex=cf([]), cwd=cwd, desc=d)), setattr(ob, "total", ob.total + 1))
@@ -3882,10 +3912,12 @@ fn replay_symlink() {
     let v = fixture();
     v.set_cwd(%s).unwrap();
     let (l, t) = (%s, %s);
-    let tkind = (v.is_dir(t), v.is_file(t));
+    let t_is = |v: &Memfs| -> (bool, bool) { let tabs = if std::path::Path::new(t).is_absolute() { v.abs(t).unwrap() } else { v.abs(v.abs(l).unwrap().parent().unwrap().join(t)).unwrap() }; (v.is_dir(&tabs), v.is_file(&tabs)) };
+    let tkind0 = t_is(&v);
     if v.symlink(l, t).is_err() { return; }
-    let tabs = v.abs(t).unwrap();
-    assert_eq!(v.readlink_abs(l).unwrap(), tabs, "C10: readlink_abs");
+    let tabs = if std::path::Path::new(t).is_absolute() { v.abs(t).unwrap() } else { v.abs(v.abs(l).unwrap().parent().unwrap().join(t)).unwrap() };
+    let tkind = tkind0;
+    assert_eq!(v.readlink_abs(l).unwrap().as_os_str(), tabs.as_os_str(), "C10: readlink_abs");
     let rel = v.readlink(l).unwrap();
     assert!(rel.is_relative(), "C10: readlink not relative: {:?}", rel);
     assert_eq!(sys::clean(v.abs(l).unwrap().parent().unwrap().join(&rel)), tabs, "C10: dir(link)/readlink(link)");
@@ -3913,6 +3945,24 @@ fn replay_symlink() {
      bounds="every (link, target) pair of texts of 1..=2 chars over {'/','a','b','.'} from the tree {/, /a, /a/b, /b} with cwd '/' and '/a'")
 def c10_quick(ctx, prop):
     return run_symlinks(ctx, prop, 2)
+
+
+def _mk_c10(name, la, lb, cwd, tier):
+    @job(name, ["C10", "C12"], tier,
+         functions=["Memfs::{symlink,_symlink,readlink,readlink_abs,is_symlink,is_file,is_dir,is_symlink_dir,is_symlink_file,remove,exists} (real MIR)"],
+         bounds="every (link, target) pair of texts of exactly %d chars (link) and exactly %d chars (target) over {'/','a','b','.'} from the tree "
+                "{/, /a, /a/b, /b} with cwd '%s'" % (la, lb, cwd))
+    def f(ctx, prop):
+        return run_symlinks(ctx, prop, lb, tag=name, cwds=(cwd,), la_range=(la, la), lb_range=(lb, lb))
+    return f
+
+
+for _cwd, _c in (("/", "r"), ("/a", "a")):
+    for _lb in (1, 2, 3):
+        _mk_c10("c10_symlink_l3_t%d_%s" % (_lb, _c), 3, _lb, _cwd, "quick")
+    for _lb in (1, 2, 3):
+        _mk_c10("c10_symlink_l4_t%d_%s" % (_lb, _c), 4, _lb, _cwd, "thorough")
+    _mk_c10("c10_symlink_l2_t4_%s" % _c, 2, 4, _cwd, "thorough")
 
 
 # ------------------------------------------------------------------------------------------------
